@@ -1021,7 +1021,7 @@ func findHarnessDir(from string) (string, error) {
 	return "", errors.New("cannot locate the harness module")
 }
 
-// startChild builds (when missing or older than this binary) and starts hx_c03_nocgo.
+// startChild builds and starts hx_c03_nocgo.
 func startChild() {
 	exe, err := os.Executable()
 	if err != nil {
@@ -1030,13 +1030,9 @@ func startChild() {
 	}
 	dir := filepath.Dir(exe)
 	out := filepath.Join(dir, "hx_c03_nocgo")
-	need := true
-	if si, err := os.Stat(exe); err == nil {
-		if so, err := os.Stat(out); err == nil && so.ModTime().After(si.ModTime()) {
-			need = false
-		}
-	}
-	if need {
+	// always rebuilt (the go build cache makes this cheap): a change confined to files of the
+	// !cgo build (crypto/signature_nocgo.go) leaves this cgo binary, and its mtime, untouched
+	{
 		hdir, err := findHarnessDir(dir)
 		if err != nil {
 			theChild.err = err
